@@ -113,42 +113,131 @@ LINEAR_ABSTRACTION = None  # set by pyvc.engine: terms -> (abstracted terms, #pr
 
 
 def _time_scale():
-    """wall-clock stretch factor under load (fixed per run by pyvc.cli / pyvc.engine)"""
+    """wall-clock stretch factor for solver timeouts: 1 on an idle machine, up to 6 when the
+    run queue is several times the number of cores (our own <= 16 jobs count as normal)"""
+    env = os.environ.get("VERIF_TIME_SCALE")
+    if env:
+        try:
+            return max(1.0, float(env))
+        except ValueError:
+            pass
     try:
-        return max(1.0, float(os.environ.get("VERIF_TIME_SCALE", "1") or 1))
-    except ValueError:
+        load = os.getloadavg()[0]
+        ncpu = os.cpu_count() or 1
+    except OSError:
         return 1.0
+    return min(6.0, max(1.0, 1.0 + (load - 0.5 * ncpu) / ncpu * 1.5))
+
+
+def guarded_check(solver, timeout_ms, *assumptions):
+    """solver.check() under z3's own timeout. (Interrupting the context from a timer thread was
+    tried for the cases where z3 overruns its timeout inside non-linear arithmetic: it corrupts
+    the incremental solver - 'unreachable' errors and segmentation faults - and was dropped;
+    the per-job deadline of the cli is the safety net instead.)"""
+    solver.set("timeout", int(timeout_ms))
+    return solver.check(*assumptions)
+
+
+DEEP_CHECK = None  # set by pyvc.engine: (terms, timeout_ms) -> "sat" | "unsat" | "unknown"
+DEEP_BUDGET_S = 150.0  # per contract run: total time for second-opinion feasibility checks
+
+
+def _stage(c: Ctx, extra, k):
+    """one stage of the feasibility portfolio for pc + axioms + extra:
+    0 incremental solver 400 ms, 1 fresh solver 1.5 s, 2 linear abstraction (refutes only),
+    3 incremental solver 3 s.  Returns 'sat' | 'unsat' | 'unknown'."""
+    sc = _time_scale()
+    if k in (0, 3):
+        if k == 3 and c.memo.get("feas_hard"):
+            return "unknown"
+        s = _solver_of(c)
+        s.push()
+        try:
+            s.add(extra)
+            r = guarded_check(s, (400 if k == 0 else FEAS_TIMEOUT_MS) * sc)
+        finally:
+            s.pop()
+    elif k == 1:
+        # a fresh, non-incremental solver uses z3's full strategy (nlsat for pure NRA) and
+        # often answers at once where the warmed-up incremental one gives up
+        s1 = z3.Solver()
+        s1.add(*c.pc)
+        s1.add(*c.axioms)
+        s1.add(extra)
+        r = guarded_check(s1, 1500 * sc)
+    else:
+        r = z3.unknown
+        if LINEAR_ABSTRACTION is not None:
+            # a contradiction that is already visible when every product is an opaque value
+            # (sound over-approximation) is found without non-linear machinery
+            try:
+                ab, nprod = LINEAR_ABSTRACTION(list(c.pc) + list(c.axioms) + [extra], som=False, rich=False)
+                if nprod:
+                    s0 = z3.Solver()
+                    s0.add(*ab)
+                    if guarded_check(s0, 1500 * sc) == z3.unsat:
+                        r = z3.unsat
+            except Exception:
+                pass
+    return "sat" if r == z3.sat else ("unsat" if r == z3.unsat else "unknown")
+
+
+def _feasible3(c: Ctx, extra, cheap=False):
+    """'sat' | 'unsat' | 'unknown' for pc + axioms + extra, staged and cheap"""
+    r = "unknown"
+    for k in ((0,) if cheap else (0, 1, 2, 3)):
+        r = _stage(c, extra, k)
+        if r != "unknown":
+            break
+    return r
+
+
+def _fork(c: Ctx, term):
+    """feasibility of both sides of a branch, stage by stage: as soon as one side is refuted the
+    other one holds on every feasible path and needs no further work"""
+    nt = z3.Not(term)
+    rt = rf = "unknown"
+    for k in (0, 1, 2, 3):
+        if rt == "unknown":
+            rt = _stage(c, term, k)
+        if rf == "unknown":
+            rf = _stage(c, nt, k)
+        if rt == "unsat" or rf == "unsat" or (rt == "sat" and rf == "sat"):
+            break
+    if rt != "unsat" and rf != "unsat":
+        # a real fork: an `unknown` side that is in fact infeasible would make every later
+        # decision on that path a hard unsatisfiable query - ask for a second opinion
+        if rt == "unknown":
+            rt = _second_opinion(c, term)
+        if rf == "unknown":
+            rf = _second_opinion(c, nt)
+    return rt, rf
+
+
+def _second_opinion(c: Ctx, extra):
+    """an `unknown` branch that is really infeasible makes every later branch decision on
+    that path a hard unsatisfiable query (seconds of time-outs each, and spurious paths): ask
+    once more with a larger budget and another solver, within a per-run allowance"""
+    if DEEP_CHECK is None:
+        return "unknown"
+    used = c.memo.get("deep_used", 0.0)
+    if used > DEEP_BUDGET_S * _time_scale():
+        c.memo["feas_hard"] = True
+        return "unknown"
+    t0 = time.time()
+    try:
+        r = DEEP_CHECK(list(c.pc) + list(c.axioms) + [extra], 12000 * _time_scale())
+    except Exception:
+        r = "unknown"
+    c.memo["deep_used"] = used + (time.time() - t0)
+    return r
 
 
 def _feasible(c: Ctx, extra):
-    t0 = time.time()
-    s = _solver_of(c)
-    s.push()
-    try:
-        s.add(extra)
-        sc = _time_scale()
-        s.set("timeout", int(400 * sc))
-        r = s.check()
-        if r == z3.unknown:
-            if LINEAR_ABSTRACTION is not None:
-                # a contradiction that is already visible when every product is an opaque
-                # value (sound over-approximation) is found without non-linear machinery
-                try:
-                    ab, nprod = LINEAR_ABSTRACTION(list(c.pc) + list(c.axioms) + [extra], som=False)
-                    if nprod:
-                        s0 = z3.Solver()
-                        s0.set("timeout", int(1500 * sc))
-                        s0.add(*ab)
-                        if s0.check() == z3.unsat:
-                            return False
-                except Exception:
-                    pass
-            s.set("timeout", int(FEAS_TIMEOUT_MS * sc))
-            r = s.check()
-        return r != z3.unsat  # unknown => explore (sound: more paths, never fewer)
-    finally:
-        s.pop()
-        c.feas_time += time.time() - t0
+    r = _feasible3(c, extra)
+    if r == "unknown":
+        r = _second_opinion(c, extra)
+    return r != "unsat"  # unknown => explore (sound: more paths, never fewer)
 
 
 def decide(term) -> bool:
@@ -165,8 +254,8 @@ def decide(term) -> bool:
     if k < len(c.forced):
         d = c.forced[k]
     else:
-        can_t = _feasible(c, term)
-        can_f = _feasible(c, z3.Not(term))
+        rt, rf = _fork(c, term)
+        can_t, can_f = rt != "unsat", rf != "unsat"
         if can_t and can_f:
             c.alternatives.append([*c.taken, False])
             d = True
@@ -192,10 +281,9 @@ def concretize(term, limit=None):
     limit = limit or CONCRETIZE_LIMIT
     for _ in range(limit + 1):
         s = z3.Solver()
-        s.set("timeout", FEAS_TIMEOUT_MS)
         s.add(*c.pc)
         s.add(*c.axioms)
-        r = s.check()
+        r = guarded_check(s, FEAS_TIMEOUT_MS * _time_scale())
         if r == z3.unsat:
             raise Infeasible()
         if r != z3.sat:
